@@ -21,7 +21,7 @@
 (* panics, the caller recovers): it returns nothing and leaves nothing      *)
 (* behind - in particular nothing that could block or change a later call.  *)
 (***************************************************************************)
-EXTENDS Integers, FiniteSets, TLC
+EXTENDS Integers, FiniteSets
 
 CONSTANTS Objects,        \* recipe values shared by the goroutines
           Goroutines,
